@@ -64,7 +64,7 @@ def gen(rng: Rng, tier, i):
         mode = r.pick(["w", "o", "o"])
         pre = "absent" if mode == "w" else r.pick(["absent", "object", "file", "staledir"])
         cfgs.append({**t, "mode": mode, "pre": pre, "level": r.pick([None] + list(range(10))),
-                     "path_kind": r.pick(["str", "Path"])})
+                     "path_kind": r.pick(["str", "Path", "str", "Path", "rel", "relPath"])})
     return {"graph": g, "cfgs": cfgs, "env": serio.gen_env(rng.fork("env")),
             "other_process": rng.chance(0.08)}
 
